@@ -360,7 +360,58 @@ func (p *Program) indexLits(parent *FuncInfo, root ast.Node) {
 }
 
 // Func looks a function up by qualified anchor name.
-func (p *Program) Func(name string) *FuncInfo { return p.funcs[name] }
+func (p *Program) Func(name string) *FuncInfo {
+	if f := p.funcs[name]; f != nil {
+		return f
+	}
+	// "pkg.factory:role" names a closure by the arshaler field it is stored in; if the closure became a
+	// named function or a method value (`unmarshal: a.unmarshal`), resolve the role to that function
+	i := strings.LastIndex(name, ":")
+	if i < 0 || strings.ContainsAny(name[i+1:], "#$") {
+		return nil
+	}
+	factory, role := p.funcs[name[:i]], name[i+1:]
+	if factory == nil || factory.Body() == nil {
+		return nil
+	}
+	info := factory.Info()
+	var found *FuncInfo
+	resolve := func(e ast.Expr) {
+		e = ast.Unparen(e)
+		switch x := e.(type) {
+		case *ast.FuncLit:
+			if found == nil {
+				found = p.lits[x]
+			}
+		case *ast.Ident:
+			if fn, ok := info.Uses[x].(*types.Func); ok && found == nil {
+				found = p.FuncOf(fn)
+			}
+		case *ast.SelectorExpr:
+			if fn, ok := info.Uses[x.Sel].(*types.Func); ok && found == nil {
+				found = p.FuncOf(fn)
+			}
+		}
+	}
+	ast.Inspect(factory.Body(), func(n ast.Node) bool {
+		switch x := n.(type) {
+		case *ast.AssignStmt:
+			if len(x.Lhs) == len(x.Rhs) {
+				for k, l := range x.Lhs {
+					if sel, ok := ast.Unparen(l).(*ast.SelectorExpr); ok && sel.Sel.Name == role {
+						resolve(x.Rhs[k])
+					}
+				}
+			}
+		case *ast.KeyValueExpr:
+			if id, ok := x.Key.(*ast.Ident); ok && id.Name == role {
+				resolve(x.Value)
+			}
+		}
+		return true
+	})
+	return found
+}
 
 // FuncOf returns the FuncInfo of a function object declared in the repo.
 func (p *Program) FuncOf(fn *types.Func) *FuncInfo {
